@@ -503,6 +503,8 @@ pub fn navigation(ctx: &Ctx, rng: &mut Rng, o: &mut Out) {
     Source { lang: SupportLang::C, name: "witness/missing.c".into(), text: "int f( { return 1 }".into() },
     Source { lang: SupportLang::Python, name: "witness/nested-call.py".into(), text: "f(g(h(1)), g(2))\n".into() },
     Source { lang: SupportLang::Tsx, name: "witness/multibyte.tsx".into(), text: "let é = '中𝒳';\r\nlet b = <a>ü</a>;".into() },
+    // a tall tree: depth counters, the cursor's parent steps and the traversal budgets scale with height
+    Source { lang: SupportLang::JavaScript, name: "witness/deep-chain.js".into(), text: format!("let s = {};\n[{}1{}];\n", (0..45).map(|i| format!("x{i}")).collect::<Vec<_>>().join(" + "), "[".repeat(40), "]".repeat(40)) },
     // error recovery that wraps a MISSING token in its parent rules: zero-width nodes WITH children
     Source { lang: SupportLang::Bash, name: "witness/zero-width-parent-1.sh".into(), text: "a |".into() },
     Source { lang: SupportLang::Bash, name: "witness/zero-width-parent-2.sh".into(), text: "a &&\nx=$()".into() },
